@@ -648,10 +648,10 @@ def r9_clip_consulted_under_its_flag(ck, P, rid='C03-R9'):
                 ck.violation(R, f.name, 'clip region read at %s' % c.loc(), '%s hands the image\'s clip region to %s although no test of that image\'s have_clip_region guards the read (neither here nor at every caller): after the clip has been removed the stale rectangles still restrict the drawing, and a clip that was set without client_clip is ignored' % (f.name, c.callee), c.loc())
 
 
-def r10_region_gets_callers_images(ck, P):
+def r10_region_gets_callers_images(ck, P, rid='C03-R10'):
     """T-WHO: the composite region is computed from the images the caller passed - all three of them.  A mask that is dropped locally
     (because it is opaque and does not change colours) still clips."""
-    R = ck.rule('C03-R10', 'every exported drawing entry point hands its own source, mask and destination parameters to the composite-region computation unchanged (not a local copy that some path has set to NULL): an opaque mask does not change colours, but its clip still restricts the region', floor=3)
+    R = ck.rule(rid, 'every exported drawing entry point hands its own source, mask and destination parameters to the composite-region computation unchanged (not a local copy that some path has set to NULL): an opaque mask does not change colours, but its clip still restricts the region', floor=3)
     F = find_region_function(P)
     img = [i for i, (n, t) in enumerate(F.params) if 'pixman_image' in t]
     n = 0
